@@ -133,6 +133,8 @@ class FnTr:
         self.ret_ty = None
         self.outs = []         # list of var ids that are written reference/pointer params
         self.params = []
+        self.assert_mode = False   # (additive) emit `<f>_asserts_ok : ... -> bool`: true iff every COLA_ASSERT met on the path taken holds
+        self.loop_depth = 0
 
     def fresh(self, base):
         base = re.sub(r'[^A-Za-z0-9_]', '_', base)
@@ -729,6 +731,14 @@ class FnTr:
             neg = False
             if isinstance(a, tuple):
                 neg, a = True, a[1]
+            if self.assert_mode:
+                if self.loop_depth > 0:
+                    self.bad('assert inside a loop in assert mode')
+                e, t = self.expr(a, env)
+                e = self.to_bool(e, t)
+                if neg:
+                    e = '(negb %s)' % e
+                return '(if %s then\n%s\nelse %s)' % (e, k(env), self.ret_value('false', 'bool', env))
             try:
                 e, t = self.expr(a, env)
                 e = self.to_bool(e, t)
@@ -780,6 +790,8 @@ class FnTr:
                 return 'let %s : %s := %s in\n%s' % (nm, ty, e, go(ds[1:], env2))
             return go(inner, env)
         if kind == 'ReturnStmt':
+            if self.assert_mode:
+                return self.ret_value('true', 'bool', env)
             if not inner:
                 return self.ret_value('tt', 'unit', env)
             e, t = self.expr(inner[0], env)
@@ -1009,6 +1021,13 @@ class FnTr:
                 pat2, acc, lo, hi, self.tuple_of(ids, env), k(env2))
 
     def _loop_body(self, body, envb, ids, canret):
+        self.loop_depth += 1
+        try:
+            return self._loop_body0(body, envb, ids, canret)
+        finally:
+            self.loop_depth -= 1
+
+    def _loop_body0(self, body, envb, ids, canret):
         if not canret:
             return self.stmt(body, envb, lambda e: self.tuple_of(ids, e))
         old = self.ret_value
@@ -1064,11 +1083,15 @@ class FnTr:
         if self.cls and 'this' in written:
             self.outs = ['this'] + self.outs
         self.params = plist
+        if self.assert_mode:
+            self.outs = []
+            self.ret_ty = 'bool'
+            DEFAULTS_bool_true = 'true'
         # implicit member access in methods: MemberExpr over CXXThisExpr is handled through env['this']
-        end = lambda e: self.ret_value(default_of(self.ret_ty, self.ctx), self.ret_ty, e)
+        end = lambda e: self.ret_value(default_of(self.ret_ty, self.ctx) if not self.assert_mode else 'true', self.ret_ty, e)
         term = self.stmts(body['inner'] if 'inner' in body else [], env, end)
         if 'UNREACHABLE' in term:
-            term = term.replace('UNREACHABLE', self.ret_value(default_of(self.ret_ty, self.ctx), self.ret_ty, env))
+            term = term.replace('UNREACHABLE', self.ret_value(default_of(self.ret_ty, self.ctx) if not self.assert_mode else 'true', self.ret_ty, env))
         rt = self.ret_ty
         if self.outs:
             rt = '(' + ' * '.join([self.ret_ty] + [self.vartypes[o] for o in self.outs]) + ')%type'
@@ -1248,6 +1271,12 @@ def run_module(spec, mod, repo, outdir):
             srcf, l0, l1, h = source_text(repo, d, files[name])
             out.append('(* %s  %s:%d-%d  sha256/16=%s *)' % (name, srcf, l0, l1, h))
             out.append(txt)
+            if name in mod.get('emit_asserts', []):
+                # (additive) second, path-sensitive translation: do all COLA_ASSERTs met on the executed path hold?
+                tra = FnTr(ctx, d, coqname + '_asserts_ok', cls)
+                tra.assert_mode = True
+                atxt, _, _ = tra.translate()
+                out.append(atxt)
             pre = [p[1] for p in tr.pre if p[0] == 'expr']
             skipped = [p[1] for p in tr.pre if p[0] == 'skip']
             ret_base = tr.ret_ty
